@@ -1,9 +1,15 @@
 #!/bin/bash
 # Assemble coq/_CoqProject from the fragments in coq/_CoqProject.d (one per engine, so that
-# engines can be developed independently). Rewrites the file only when it changes.
+# engines can be developed independently). Files that are listed but do not exist (yet) are
+# skipped, so that one engine's half-written fragment cannot break everybody's build.
+# Rewrites the file only when it changes.
 cd /verif/coq
 { echo "-Q . PV"
   echo "-arg -w -arg -notation-overridden,-deprecated-hint-without-locality,-deprecated-instance-without-locality"
-  for f in $(ls _CoqProject.d/*.txt | sort); do grep -v '^\s*#' $f | grep -v '^\s*$'; done
-} > _CoqProject.new
-if ! cmp -s _CoqProject.new _CoqProject; then mv _CoqProject.new _CoqProject; else rm _CoqProject.new; fi
+  for f in $(ls _CoqProject.d/*.txt | sort); do
+    grep -v '^\s*#' $f | grep -v '^\s*$' | while read -r v; do
+      if [ -f "$v" ]; then echo "$v"; else echo "coqproject: skipping missing $v (listed in $f)" >&2; fi
+    done
+  done
+} > _CoqProject.new.$$
+if ! cmp -s _CoqProject.new.$$ _CoqProject; then mv _CoqProject.new.$$ _CoqProject; else rm _CoqProject.new.$$; fi
